@@ -136,7 +136,8 @@ func basePoints(r *rand.Rand, class string, n int, jitterBoost float64) ([]pt, f
 		V := make([]pt, k)
 		for i := range V {
 			a := ph + 2*math.Pi*(float64(i)+0.3*r.Float64())/float64(k)
-			V[i] = pt{0.5 + 0.45*math.Cos(a), 0.5 + 0.45*math.Sin(a)}
+			rad := 0.45 * (0.75 + 0.25*r.Float64()) // not all on one circle
+			V[i] = pt{0.5 + rad*math.Cos(a), 0.5 + rad*math.Sin(a)}
 		}
 		onHull := n * (4 + r.Intn(5)) / 10
 		if onHull < imin(n, k) {
